@@ -180,7 +180,8 @@ def cases(draw):
     if draw(st.integers(0, 3)) == 0:
         tfmt = [draw(st.sampled_from(["C", "U"])) for _ in range(d)]
     return {"tree": tree, "route": draw(gen.routes), "fspec": fspec, "tfmt": tfmt,
-            "sel": [draw(st.integers(0, 10000)) for _ in range(3)]}
+            "sel": [draw(st.integers(0, 10000)) for _ in range(3)],
+            "split": draw(st.one_of(st.none(), st.tuples(st.integers(0, 3), st.integers(0, 5))))}
 
 
 def _small_trees(shape, leaf_opts):
@@ -236,6 +237,24 @@ def check(case, rec):
     if case["tfmt"]:
         for r, f in zip(rank_ids, case["tfmt"]):
             t.setFormat(r, f)
+
+    # optionally query a split tensor: its lower fibers carry explicit active ranges smaller than the
+    # shape, which must not matter ("through every coordinate of the shape of an uncompressed rank")
+    fspec_in = case["fspec"]
+    sp = case.get("split")
+    if sp and d <= 2 and not (case["tfmt"] and "U" in case["tfmt"]):
+        k = sp[0] % d
+        t = t.splitUniform(1 + sp[1] % shape[k], depth=k)
+        old = rank_ids[k]
+        rank_ids = list(t.getRankIds())
+        shape = list(t.getShape())
+        d = len(rank_ids)
+        fspec_in = {key: val for key, val in case["fspec"].items() if key != old}
+        if old in case["fspec"]:
+            fspec_in[old + ".1"] = copy.deepcopy(case["fspec"][old])
+            fspec_in[old + ".0"] = copy.deepcopy(case["fspec"][old])
+        rec.cls("split-tensor")
+    case = dict(case, fspec=fspec_in)
 
     # raw walk of the real tree: the oracle's only view of the tensor
     raw = observe.tree_of(t.getRoot())
